@@ -50,22 +50,21 @@ mod axv_types {
             _ => unreachable!(),
         }
     }
-    // deterministic hasher: the law is about the bytes fed to the hasher
-    struct Fnv(u64);
-    impl Hasher for Fnv {
-        fn finish(&self) -> u64 { self.0 }
-        fn write(&mut self, bytes: &[u8]) {
-            let mut i = 0;
-            while i < bytes.len() { self.0 = (self.0 ^ bytes[i] as u64).wrapping_mul(0x100000001b3); i += 1; }
-        }
+    // deterministic, loop-free hasher: the law is about the values fed to the hasher
+    // (DataType::hash feeds one u8 tag and then one u8/u64 payload; Blob is not used here)
+    struct Rec2 { n: u8, tag: u8, small: u8, wide: u64 }
+    impl Hasher for Rec2 {
+        fn finish(&self) -> u64 { self.wide }
+        fn write(&mut self, _bytes: &[u8]) { self.n = 99; }
+        fn write_u8(&mut self, v: u8) { if self.n == 0 { self.tag = v; } else { self.small = v; } self.n += 1; }
+        fn write_u64(&mut self, v: u64) { self.wide = v; self.n += 1; }
     }
-    fn h(v: &DataType) -> u64 { let mut s = Fnv(0xcbf29ce484222325); v.hash(&mut s); s.finish() }
+    fn h(v: &DataType) -> (u8, u8, u8, u64) { let mut s = Rec2 { n: 0, tag: 0, small: 0, wide: 0 }; v.hash(&mut s); (s.n, s.tag, s.small, s.wide) }
 
     // ------------------------------------------------------------------ equality / ordering / hashing, per kind pair
     macro_rules! pair_laws {
         ($name:ident, $a:expr, $b:expr) => {
             #[kani::proof]
-            #[kani::unwind(10)]
             fn $name() {
                 let a: DataType = $a;
                 let b: DataType = $b;
@@ -94,43 +93,43 @@ mod axv_types {
         };
     }
 
-    //@ob [C19:laws.int_int] level=proved tier=thorough harness=laws_int_int text="for every int value a and int value b (non-NaN): == symmetric and reflexive, partial_cmp total, antisymmetric and consistent with ==, and a == b implies equal hasher input"
+    //@ob [C19:laws.int_int] level=proved harness=laws_int_int text="for every int value a and int value b (non-NaN): == symmetric and reflexive, partial_cmp total, antisymmetric and consistent with ==, and a == b implies equal hasher input"
     pair_laws!(laws_int_int, DataType::Int(Int32(kani::any())), DataType::Int(Int32(kani::any())));
     //@ob [C19:laws.int_bigint] level=proved tier=quick harness=laws_int_bigint text="for every int value a and bigint value b (non-NaN): == symmetric and reflexive, partial_cmp total, antisymmetric and consistent with ==, and a == b implies equal hasher input"
     pair_laws!(laws_int_bigint, DataType::Int(Int32(kani::any())), DataType::BigInt(Int64(kani::any())));
     //@ob [C19:laws.int_uint] level=proved tier=quick harness=laws_int_uint text="for every int value a and uint value b (non-NaN): == symmetric and reflexive, partial_cmp total, antisymmetric and consistent with ==, and a == b implies equal hasher input"
     pair_laws!(laws_int_uint, DataType::Int(Int32(kani::any())), DataType::UInt(UInt32(kani::any())));
-    //@ob [C19:laws.int_biguint] level=proved tier=thorough harness=laws_int_biguint text="for every int value a and biguint value b (non-NaN): == symmetric and reflexive, partial_cmp total, antisymmetric and consistent with ==, and a == b implies equal hasher input"
+    //@ob [C19:laws.int_biguint] level=proved harness=laws_int_biguint text="for every int value a and biguint value b (non-NaN): == symmetric and reflexive, partial_cmp total, antisymmetric and consistent with ==, and a == b implies equal hasher input"
     pair_laws!(laws_int_biguint, DataType::Int(Int32(kani::any())), DataType::BigUInt(UInt64(kani::any())));
     //@ob [C19:laws.int_float] level=proved tier=quick harness=laws_int_float text="for every int value a and float value b (non-NaN): == symmetric and reflexive, partial_cmp total, antisymmetric and consistent with ==, and a == b implies equal hasher input"
     pair_laws!(laws_int_float, DataType::Int(Int32(kani::any())), DataType::Float(Float32(any_f32())));
-    //@ob [C19:laws.int_double] level=proved tier=thorough harness=laws_int_double text="for every int value a and double value b (non-NaN): == symmetric and reflexive, partial_cmp total, antisymmetric and consistent with ==, and a == b implies equal hasher input"
+    //@ob [C19:laws.int_double] level=proved harness=laws_int_double text="for every int value a and double value b (non-NaN): == symmetric and reflexive, partial_cmp total, antisymmetric and consistent with ==, and a == b implies equal hasher input"
     pair_laws!(laws_int_double, DataType::Int(Int32(kani::any())), DataType::Double(Float64(any_f64())));
     //@ob [C19:laws.bigint_bigint] level=proved tier=quick harness=laws_bigint_bigint text="for every bigint value a and bigint value b (non-NaN): == symmetric and reflexive, partial_cmp total, antisymmetric and consistent with ==, and a == b implies equal hasher input"
     pair_laws!(laws_bigint_bigint, DataType::BigInt(Int64(kani::any())), DataType::BigInt(Int64(kani::any())));
-    //@ob [C19:laws.bigint_uint] level=proved tier=thorough harness=laws_bigint_uint text="for every bigint value a and uint value b (non-NaN): == symmetric and reflexive, partial_cmp total, antisymmetric and consistent with ==, and a == b implies equal hasher input"
+    //@ob [C19:laws.bigint_uint] level=proved harness=laws_bigint_uint text="for every bigint value a and uint value b (non-NaN): == symmetric and reflexive, partial_cmp total, antisymmetric and consistent with ==, and a == b implies equal hasher input"
     pair_laws!(laws_bigint_uint, DataType::BigInt(Int64(kani::any())), DataType::UInt(UInt32(kani::any())));
-    //@ob [C19:laws.bigint_biguint] level=proved tier=thorough harness=laws_bigint_biguint text="for every bigint value a and biguint value b (non-NaN): == symmetric and reflexive, partial_cmp total, antisymmetric and consistent with ==, and a == b implies equal hasher input"
+    //@ob [C19:laws.bigint_biguint] level=proved harness=laws_bigint_biguint text="for every bigint value a and biguint value b (non-NaN): == symmetric and reflexive, partial_cmp total, antisymmetric and consistent with ==, and a == b implies equal hasher input"
     pair_laws!(laws_bigint_biguint, DataType::BigInt(Int64(kani::any())), DataType::BigUInt(UInt64(kani::any())));
-    //@ob [C19:laws.bigint_float] level=proved tier=thorough harness=laws_bigint_float text="for every bigint value a and float value b (non-NaN): == symmetric and reflexive, partial_cmp total, antisymmetric and consistent with ==, and a == b implies equal hasher input"
+    //@ob [C19:laws.bigint_float] level=proved harness=laws_bigint_float text="for every bigint value a and float value b (non-NaN): == symmetric and reflexive, partial_cmp total, antisymmetric and consistent with ==, and a == b implies equal hasher input"
     pair_laws!(laws_bigint_float, DataType::BigInt(Int64(kani::any())), DataType::Float(Float32(any_f32())));
     //@ob [C19:laws.bigint_double] level=proved tier=quick harness=laws_bigint_double text="for every bigint value a and double value b (non-NaN): == symmetric and reflexive, partial_cmp total, antisymmetric and consistent with ==, and a == b implies equal hasher input"
     pair_laws!(laws_bigint_double, DataType::BigInt(Int64(kani::any())), DataType::Double(Float64(any_f64())));
-    //@ob [C19:laws.uint_uint] level=proved tier=thorough harness=laws_uint_uint text="for every uint value a and uint value b (non-NaN): == symmetric and reflexive, partial_cmp total, antisymmetric and consistent with ==, and a == b implies equal hasher input"
+    //@ob [C19:laws.uint_uint] level=proved harness=laws_uint_uint text="for every uint value a and uint value b (non-NaN): == symmetric and reflexive, partial_cmp total, antisymmetric and consistent with ==, and a == b implies equal hasher input"
     pair_laws!(laws_uint_uint, DataType::UInt(UInt32(kani::any())), DataType::UInt(UInt32(kani::any())));
     //@ob [C19:laws.uint_biguint] level=proved tier=quick harness=laws_uint_biguint text="for every uint value a and biguint value b (non-NaN): == symmetric and reflexive, partial_cmp total, antisymmetric and consistent with ==, and a == b implies equal hasher input"
     pair_laws!(laws_uint_biguint, DataType::UInt(UInt32(kani::any())), DataType::BigUInt(UInt64(kani::any())));
-    //@ob [C19:laws.uint_float] level=proved tier=thorough harness=laws_uint_float text="for every uint value a and float value b (non-NaN): == symmetric and reflexive, partial_cmp total, antisymmetric and consistent with ==, and a == b implies equal hasher input"
+    //@ob [C19:laws.uint_float] level=proved harness=laws_uint_float text="for every uint value a and float value b (non-NaN): == symmetric and reflexive, partial_cmp total, antisymmetric and consistent with ==, and a == b implies equal hasher input"
     pair_laws!(laws_uint_float, DataType::UInt(UInt32(kani::any())), DataType::Float(Float32(any_f32())));
     //@ob [C19:laws.uint_double] level=proved tier=quick harness=laws_uint_double text="for every uint value a and double value b (non-NaN): == symmetric and reflexive, partial_cmp total, antisymmetric and consistent with ==, and a == b implies equal hasher input"
     pair_laws!(laws_uint_double, DataType::UInt(UInt32(kani::any())), DataType::Double(Float64(any_f64())));
-    //@ob [C19:laws.biguint_biguint] level=proved tier=thorough harness=laws_biguint_biguint text="for every biguint value a and biguint value b (non-NaN): == symmetric and reflexive, partial_cmp total, antisymmetric and consistent with ==, and a == b implies equal hasher input"
+    //@ob [C19:laws.biguint_biguint] level=proved harness=laws_biguint_biguint text="for every biguint value a and biguint value b (non-NaN): == symmetric and reflexive, partial_cmp total, antisymmetric and consistent with ==, and a == b implies equal hasher input"
     pair_laws!(laws_biguint_biguint, DataType::BigUInt(UInt64(kani::any())), DataType::BigUInt(UInt64(kani::any())));
     //@ob [C19:laws.biguint_float] level=proved tier=quick harness=laws_biguint_float text="for every biguint value a and float value b (non-NaN): == symmetric and reflexive, partial_cmp total, antisymmetric and consistent with ==, and a == b implies equal hasher input"
     pair_laws!(laws_biguint_float, DataType::BigUInt(UInt64(kani::any())), DataType::Float(Float32(any_f32())));
-    //@ob [C19:laws.biguint_double] level=proved tier=thorough harness=laws_biguint_double text="for every biguint value a and double value b (non-NaN): == symmetric and reflexive, partial_cmp total, antisymmetric and consistent with ==, and a == b implies equal hasher input"
+    //@ob [C19:laws.biguint_double] level=proved harness=laws_biguint_double text="for every biguint value a and double value b (non-NaN): == symmetric and reflexive, partial_cmp total, antisymmetric and consistent with ==, and a == b implies equal hasher input"
     pair_laws!(laws_biguint_double, DataType::BigUInt(UInt64(kani::any())), DataType::Double(Float64(any_f64())));
-    //@ob [C19:laws.float_float] level=proved tier=thorough harness=laws_float_float text="for every float value a and float value b (non-NaN): == symmetric and reflexive, partial_cmp total, antisymmetric and consistent with ==, and a == b implies equal hasher input"
+    //@ob [C19:laws.float_float] level=proved harness=laws_float_float text="for every float value a and float value b (non-NaN): == symmetric and reflexive, partial_cmp total, antisymmetric and consistent with ==, and a == b implies equal hasher input"
     pair_laws!(laws_float_float, DataType::Float(Float32(any_f32())), DataType::Float(Float32(any_f32())));
     //@ob [C19:laws.float_double] level=proved tier=quick harness=laws_float_double text="for every float value a and double value b (non-NaN): == symmetric and reflexive, partial_cmp total, antisymmetric and consistent with ==, and a == b implies equal hasher input"
     pair_laws!(laws_float_double, DataType::Float(Float32(any_f32())), DataType::Double(Float64(any_f64())));
